@@ -94,6 +94,7 @@ def setup_worker(w, tier):
 
       spec: str
       pre: int = 0
+      post: bool = False
 
       def helper(self, x):
         return KProg(spec=self.spec)(x) + 1.0
@@ -105,7 +106,11 @@ def setup_worker(w, tier):
       def __call__(self, x):
         for _ in range(self.pre):
           x = KProg(spec=self.spec)(x)
-        return self.helper(x)
+        x = self.helper(x)
+        if self.post:
+          # one more auto-named child AFTER the jitted helper (a jit-cache hit must replay the auto-name cursor the helper leaves behind)
+          x = KProg(spec=self.spec)(x)
+        return x
 
     return KInner
 
@@ -196,7 +201,7 @@ def ext_kinner(mod, ins, x, n, made):
       cls = ENV.classes.get('jit_inner_method')
       if cls is None:
         cls = ENV.classes['jit_inner_method'] = make_inner(True)
-    sub = made[n] = cls(spec=P.dumps(ins['mod']), pre=pre, name=ins['name'])
+    sub = made[n] = cls(spec=P.dumps(ins['mod']), pre=pre, post=bool(ins.get('post')), name=ins['name'])
   P.CTL.event('child-call')
   return sub(x)
 
@@ -442,7 +447,7 @@ def generate(rs, tier):
     # one or two instances of the same class with a different number of auto-named children before the jitted helper
     pres = g.sample([0, 1, 2], g.choice([1, 2, 2]))
     for j, pre in enumerate(pres):
-      body.append(dict(i='kinner', name=f'ki{j}', pre=pre, mod=dict(style='compact', name=None, body=[dict(i='param', name='w0', kind='bias')])))
+      body.append(dict(i='kinner', name=f'ki{j}', pre=pre, post=g.random() < 0.5, mod=dict(style='compact', name=None, body=[dict(i='param', name='w0', kind='bias')])))
   if g.random() < 0.22:
     body.append(dict(i='kmeth', name='km', use_k=g.random() < 0.6, seq=[g.choice(['call', 'alt']) for _ in range(g.randrange(1, 4))],
                      mod=dict(style='setup', name=None, body=[dict(i='param', name='wa', kind='bias'), dict(i='var', col='stats', name='n_alt', kind='counter')])))
@@ -491,7 +496,10 @@ SHRINK_LISTS = ['ops']
 def signature(plan, v):
   k = plan['knobs']
   has_mapv_mut = any(i.get('lift') == 'mapv_mut' or (i.get('lift') == 'mapv_params' and i.get('has_rng')) for i in k['spec']['body'])
-  return dict(mapv_mut_init=bool(k.get('mapv_init') and has_mapv_mut))
+  sig = dict(mapv_mut_init=bool(k.get('mapv_init') and has_mapv_mut))
+  if any(i['i'] == 'kinner' and i.get('post') for i in k['spec']['body']):
+    sig['auto_named_child_after_jitted_helper'] = True
+  return sig
 
 
 def in_filter(f, col):
